@@ -37,6 +37,7 @@ func allInstances() []*Instance {
 	regC16(add, p)
 	regC19(add, p)
 	regC03(add, p)
+	regC19b(add, p)
 	regC13b(add, p)
 	regC10b(add, p)
 	regC18(add, p)
@@ -347,8 +348,14 @@ func regC08(add addFn, p pFn) {
 	add(&Instance{Property: "C08", Name: "rc4-s2k-n6", Entry: "crypto.VH_C08_RC4StringToKey", Params: p("n", 6), Logic: "QF_UFBV", Tier: "thorough", Reach: []string{"done"}, Bound: "every valid UTF-8 password of 6 bytes"})
 	for order := 0; order < 6; order++ {
 		for mask := 0; mask < 8; mask++ {
-			add(&Instance{Property: "C08", Name: "padata-order" + itoa(order) + "-mask" + itoa(mask), Entry: "crypto.VH_C08_PADataPrecedence", Params: p("order", order, "mask", mask, "maxseq", 1), Stubs: []string{"asn1havoc", "nfolduf", "des3rtkuf", "idealmac"}, Logic: "QF_UFBV", Replay: "stubbed", Reach: []string{"done"},
+			add(&Instance{Property: "C08", Name: "padata-order" + itoa(order) + "-mask" + itoa(mask), Entry: "crypto.VH_C08_PADataPrecedence", Params: p("order", order, "mask", mask, "empty", 0, "maxseq", 1), Stubs: []string{"asn1havoc", "nfolduf", "des3rtkuf", "idealmac"}, Logic: "QF_UFBV", Replay: "stubbed", Reach: []string{"done"},
 				Bound: "one of the 6 orders x 8 subsets of {PA-PW-SALT, PA-ETYPE-INFO, PA-ETYPE-INFO2} with symbolic, distinguishable salts and a symbolic password"})
+		}
+	}
+	for order := 0; order < 6; order++ {
+		for _, c := range [][2]int{{3, 2}, {5, 4}, {6, 4}, {7, 2}, {7, 4}, {7, 6}} { // (subset, hints that carry no salt)
+			add(&Instance{Property: "C08", Name: "padata-nosalt-order" + itoa(order) + "-mask" + itoa(c[0]) + "-empty" + itoa(c[1]), Entry: "crypto.VH_C08_PADataPrecedence", Params: p("order", order, "mask", c[0], "empty", c[1], "maxseq", 1), Stubs: []string{"asn1havoc", "nfolduf", "des3rtkuf", "idealmac"}, Logic: "QF_UFBV", Replay: "stubbed", Reach: []string{"done"},
+				Bound: "as padata-order*, with PA-ETYPE-INFO and/or PA-ETYPE-INFO2 carrying no salt (the default salt applies when such a hint governs)"})
 		}
 	}
 	add(&Instance{Property: "C08", Name: "default-params", Entry: "crypto.VH_C08_DefaultParams", Reach: []string{"done"}, Bound: "the six etypes"})
@@ -542,7 +549,15 @@ func regC10b(add addFn, p pFn) {
 	}
 }
 
+func regC19b(add addFn, p pFn) {
+	for _, c := range [][3]int{{1, 3, 0}, {2, 2, 0}, {1, 0, 3}, {1, 2, 2}, {0, 3, 2}} {
+		add(&Instance{Property: "C19", Name: "group-sids-g" + itoa(c[0]) + "-x" + itoa(c[1]) + "-r" + itoa(c[2]), Entry: "pac.VH_C19_GroupSIDs", Params: p("groups", c[0], "extra", c[1], "resource", c[2]), Stubs: []string{"exactfmt"},
+			Reach: []string{"done"}, Bound: itoa(c[0]) + " group ids, " + itoa(c[1]) + " extra SIDs, " + itoa(c[2]) + " resource groups; every sub-authority in 0..3 (every pattern of repeats among them)"})
+	}
+}
+
 func regC13b(add addFn, p pFn) {
+	add(&Instance{Property: "C13", Name: "flags-from-zero-value", Entry: "types.VH_C13_FlagsFromZeroValue", Reach: []string{"done"}, Bound: "SetFlag/UnsetFlag on bit strings of 0..3 arbitrary octets, all flag indices in [0,32)"})
 	for t, n := range []string{"Ticket", "APReq", "ASRep", "TGSRep", "KRBPriv"} {
 		add(&Instance{Property: "C13", Name: "marshal-stable-across-decrypt-" + n, Entry: "messages.VH_C13_MarshalStableAcrossDecrypt", Params: p("type", t), Stubs: []string{"lineartime"},
 			Reach: []string{"encoded-twice"}, Bound: n + " with symbolic field values: Marshal before == Marshal after the decrypted part is filled in (asn1.Marshal as an uninterpreted function of its argument)"})
@@ -577,7 +592,7 @@ func regC02(add addFn, p pFn) {
 	add(&Instance{Property: "C02", Name: "history-k4", Entry: "service.VH_C02_History", Params: p("k", 4), Stubs: lt, Replay: "stubbed", Reach: []string{"done"}, Bound: "EVERY history of 4 operations over {present a1, present a2, clean-up}, arbitrary non-decreasing clock, arbitrary distinct client instants, skew in (0,2^50 ns)"})
 	add(&Instance{Property: "C02", Name: "history-k5", Entry: "service.VH_C02_History", Params: p("k", 5), Stubs: lt, Replay: "stubbed", Tier: "thorough", TimeoutS: 3000, SolverMs: 120000, Reach: []string{"done"}, Bound: "every history of 5 operations"})
 	add(&Instance{Property: "C02", Name: "busy-client-n40", Entry: "service.VH_C02_BusyClient", Params: p("n", 40), Stubs: lt, Replay: "stubbed", Unwind: 3000, Reach: []string{"done"}, Bound: "40 tracked authenticators of one client (concrete instants)"})
-	add(&Instance{Property: "C02", Name: "busy-client-n1100", Entry: "service.VH_C02_BusyClient", Params: p("n", 1100), Stubs: lt, Replay: "stubbed", Unwind: 3000, Tier: "thorough", MaxSteps: 400000000, TimeoutS: 1500, Reach: []string{"done"}, Bound: "1100 tracked authenticators of one client"})
+	add(&Instance{Property: "C02", Name: "busy-client-n1100", Entry: "service.VH_C02_BusyClient", Params: p("n", 1100), Stubs: lt, Replay: "stubbed", Unwind: 3000, MaxSteps: 400000000, TimeoutS: 1500, Reach: []string{"done"}, Bound: "1100 tracked authenticators of one client"})
 	add(&Instance{Property: "C02", Name: "concurrent-same-2", Entry: "service.VH_C02_ConcurrentSame", Params: p("threads", 2), Stubs: lt, Replay: "stubbed", Reach: []string{"done"}, Bound: "2 goroutines, the same symbolic authenticator, EVERY interleaving at the lock operations"})
 	add(&Instance{Property: "C02", Name: "concurrent-same-3", Entry: "service.VH_C02_ConcurrentSame", Params: p("threads", 3), Stubs: lt, Replay: "stubbed", Tier: "thorough", TimeoutS: 1500, Reach: []string{"done"}, Bound: "3 goroutines, every interleaving"})
 	add(&Instance{Property: "C02", Name: "concurrent-distinct", Entry: "service.VH_C02_ConcurrentDistinct", Stubs: lt, Replay: "stubbed", Reach: []string{"done"}, Bound: "2 verifications of distinct authenticators and a clean-up thread, every interleaving"})
